@@ -444,7 +444,7 @@ def classDeclaration (tbl : List Rule) : Nat → P (List Stmt)
       superLine := sn.line
       if name.text == sn.text then error "A class cannot inherit from itself."
       beginScope
-      let _ ← addLocal "super"
+      addHiddenLocal "super"
       defineVariable
       let r2 ← resolveVariable name.text
       emitVariableOp r2
@@ -550,7 +550,7 @@ def statement (tbl : List Rule) : Nat → P (List Stmt)
       consume .in_ "Expected 'in' after loop variable."
       let iterable ← expression tbl fuel
       markInitialisedAt loopVar
-      let _ ← addLocal "... temp-iter-var ..."
+      addHiddenLocal "... temp-iter-var ..."
       identifierConstant "iter"
       emit 4
       let line ← prevLine
